@@ -12,7 +12,8 @@ Open Scope Z_scope.
    values (others are decode errors); TFlags w bits: bitflags decoded with from_bits_truncate *)
 Inductive ty :=
 | TS (k : Z) | TVar | TDV | TArr (t : ty) | TStruct (fs : list ty)
-| TEnum (w : nat) (vals : list Z) | TFlags (w : nat) (allbits : Z).
+| TEnum (w : nat) (vals : list Z) | TFlags (w : nat) (allbits : Z)
+| TEnumD (w : nat) (vals : list Z) (dflt : Z).   (* unknown values decode to the member dflt *)
 
 Inductive uval :=
 | US (s : scalar) | UV (v : variant) | UD (v : option variant) (r : dvrest)
@@ -33,6 +34,7 @@ Definition esize (t : ty) : Z :=
   | TStruct _ => 1           (* not tracked *)
   | TEnum w _ => Z.of_nat w
   | TFlags w _ => Z.of_nat w
+  | TEnumD w _ _ => Z.of_nat w
   end.
 
 Definition enc_enum (w : nat) (z : Z) : bytes := enc_i w z.
@@ -52,6 +54,7 @@ Fixpoint enc_ty (t : ty) (v : uval) {struct t} : bytes :=
          end) fs vs
   | TEnum w _, UE z => enc_enum w z
   | TFlags w _, UE z => enc_enum w z
+  | TEnumD w _ _, UE z => enc_enum w z
   | _, _ => []
   end.
 
@@ -69,6 +72,7 @@ Fixpoint len_ty (t : ty) (v : uval) {struct t} : Z :=
          end) fs vs
   | TEnum w _, UE _ => Z.of_nat w
   | TFlags w _, UE _ => Z.of_nat w
+  | TEnumD w _ _, UE _ => Z.of_nat w
   | _, _ => 0
   end.
 
@@ -90,6 +94,8 @@ Fixpoint dec_ty (t : ty) (o : opts) (d : nat) {struct t} : M uval :=
       if existsb (Z.eqb z) vals then ret (UE z) else fail EInvalid
   | TFlags w allbits =>
       z <- read_i w ;; ret (UE (signed w (Z.land (wrap w z) allbits)))
+  | TEnumD w vals dflt =>
+      z <- read_enum w ;; ret (UE (if existsb (Z.eqb z) vals then z else dflt))
   end.
 
 Fixpoint wf_ty (t : ty) (v : uval) {struct t} : Prop :=
@@ -111,6 +117,7 @@ Fixpoint wf_ty (t : ty) (v : uval) {struct t} : Prop :=
          end) fs vs
   | TEnum w vals, UE z => In z vals /\ (0 < w)%nat /\ (w = 1%nat -> in_u 1 z) /\ (w <> 1%nat -> in_i w z)
   | TFlags w allbits, UE z => (0 < w)%nat /\ in_i w z /\ signed w (Z.land (wrap w z) allbits) = z
+  | TEnumD w vals _, UE z => In z vals /\ (0 < w)%nat /\ (w = 1%nat -> in_u 1 z) /\ (w <> 1%nat -> in_i w z)
   | _, _ => False
   end.
 
